@@ -6,6 +6,7 @@ from ..model import AnalysisError
 from ..symval import Evaluator, Tup, Obj, NoneV, NONE, CallV, Bool, Mat
 from ..symcheck import Oracle, check_equal, compare_values, show
 from ..rules import where
+from . import common
 from ..mutate import replace_in_function, substitute
 
 META = {
@@ -63,6 +64,7 @@ def pipeline(zone, east, north, ell_ht, vcv, forward):
 
 def run(repo, rep):
     alg.reset()
+    common.state_rule(repo, rep, [('geodepy.transform', 'transform_mga94_to_mga2020'), ('geodepy.transform', 'transform_mga2020_to_mga94')])
     wire_rules(repo, rep)
     shape_rules(repo, rep)
     covariance_rules(repo, rep)
